@@ -9,11 +9,12 @@ python3 - "$S/$FILE" "$FROM" "$TO" <<'PY'
 import sys,re
 p,f,t=sys.argv[1:4]
 s=open(p).read()
-n=re.subn(f,t,s,count=1,flags=re.S)
+import os
+n=re.subn(f,(t if os.environ.get('MUT_BACKREF') else (lambda m: t)),s,count=1,flags=re.S)
 if n[1]==0: print("MUTATION DID NOT APPLY"); sys.exit(3)
 open(p,'w').write(n[0])
 PY
-case "$PROP" in C08|C11|C12|C20) /verif/tools/run_mirscan.sh $S /tmp/mutfacts.$$.json >/dev/null 2>&1 || echo "MUTANT DOES NOT COMPILE"; FACTS=/tmp/mutfacts.$$.json;; esac
+case "$PROP" in C08|C11|C12|C16|C20) /verif/tools/run_mirscan.sh $S /tmp/mutfacts.$$.json >/dev/null 2>&1 || echo "MUTANT DOES NOT COMPILE"; FACTS=/tmp/mutfacts.$$.json;; esac
 mkdir -p /tmp/mutverif.$$; cp -r /verif/known_findings.txt /verif/ref /verif/audit /tmp/mutverif.$$/ 2>/dev/null
 /verif/tools/asnlint/target/release/asnlint $PROP --repo $S --verif /tmp/mutverif.$$ ${FACTS:+--facts $FACTS} | grep -v "^KNOWN" | grep -E "\[C" | head -${HEAD:-6}
 rm -rf $S /tmp/mutverif.$$ /tmp/mutfacts.$$.json
